@@ -39,8 +39,31 @@ def run(ctx):
                        "do_expansion, a field that is raised and lowered around the work (`depth += 1 .. depth -= 1`) is "
                        "lowered on EVERY path to a return - an early return inside the bracket leaks a level per "
                        "occurrence until a limit trips and every later `$(...)` yields nothing")
+    ctx.rule("R11-13", "several substitutions in one word are taken one at a time: the pattern that picks the command out of the "
+                       "word (a literal, or a choice between literals made by a regex test on the word - both read from the "
+                       "code), evaluated with the program's regex engine on words with two, nested and parenthesised "
+                       "substitutions, captures one complete command - never `A)$(B` from `$(A)$(B)`")
+    ctx.rule("R11-14", "a cmd that cannot be run yields a diagnostic, and what cmd writes to stderr is not swallowed: the command "
+                       "of a substitution runs with both streams captured, so at every capture site the `stderr` field of "
+                       "the result is handed, on every path from the call to the use of `stdout`, to something that writes "
+                       "it to the shell's stderr")
+    ctx.rule("R11-15", "the output of a function used as cmd is what its commands wrote: try_run_func assembles the result "
+                       "from the fields of the results of the body without trimming them and without inserting separators "
+                       "(only push_str of the field itself)")
+    ctx.rule("R11-16", "in assignments: every pattern that recognises `NAME=value` after expansion (the prefix-assignment "
+                       "recogniser, the export builtin and its helper), evaluated with the program's regex engine, accepts "
+                       "a value that contains newlines and captures all of it")
+    ctx.rule("R11-17", "the shell's own state is unaffected by cmd: a substitution runs its command through "
+                       "run_pipeline(capture = true), so whatever run_pipeline / run_single_program execute inside the shell "
+                       "process (a function body, a single builtin) must be reached only when not capturing - otherwise "
+                       "`$(cd /tmp)`, `$(export X=1)`, `$(alias a=b)` change the shell and `$(exit 3)` ends it")
     for crate in ctx.crates:
         bracket_rule(ctx, crate)
+        one_at_a_time_rule(ctx, crate)
+        stderr_shown_rule(ctx, crate)
+        function_output_rule(ctx, crate)
+        multiline_value_rule(ctx, crate)
+        isolation_rule(ctx, crate)
         from .. import editlist
         n_ = editlist.rule(ctx, crate, "R11-7", list(SITES))
         ctx.floor("R11-7", crate, "substitution passes with a token vector", n_, 2)
@@ -336,16 +359,18 @@ def splice_width_rule(ctx, crate):
     n = 0
     for bb, t, c in b.calls():
         if last_seg(c) in ("replace", "replacen", "replace_all") and "egex" in c:
-            lit = None
+            lits = None
             hit = flow.backward(b, b.call_args(bb)[0], lambda z: z[0] == "call" and last_seg(z[1]) == "new" and "egex" in z[1]
-                                and z[2] and mir.const_str(z[2][0]) is not None)
+                                and z[2], through_containers=False)
             if hit is not None:
-                lit = mir.const_str(hit[2][0])
-            if not ctx.require(lit is not None, "R11-9", "R11-9|%s|pattern#%d" % (b.path, n),
-                               "the splice pattern is not a literal", b.path):
+                # the call site of Regex::new: its argument may be a local with several literal definitions
+                for b2, t2, c2 in b.calls():
+                    if c2.endswith("Regex::new") and strip_sites(b.call_expr(b2)) == strip_sites(hit):
+                        lits = flow.const_alternatives(b, b.call_args(b2)[0])
+            if not ctx.require(lits is not None, "R11-9", "R11-9|%s|pattern#%d" % (b.path, n),
+                               "the splice pattern is not a literal (or a choice between literals)", b.path):
                 n += 1
                 continue
-            sh = refacts.info(lit).get("shape") or {}
 
             def looks(x):
                 if isinstance(x, dict):
@@ -356,12 +381,14 @@ def splice_width_rule(ctx, crate):
                 elif isinstance(x, list):
                     for v in x:
                         yield from looks(v)
-            anchors = sorted(set(looks(sh)))
-            ok = bool(sh) and not anchors
-            ctx.ob("R11-9", b.path, "the splice pattern %r is an unanchored search, like the gate" % lit[:40], ok,
-                   key="R11-9|%s|splice-anchored#%d" % (b.path, n), where=b.loc(bb), crate=crate.kind,
-                   detail=None if ok else "anchors %s: for `\"a$1b $(cmd) c\"` the pattern does not match, nothing is replaced "
-                   "and the rewrite loop never ends" % anchors)
+            for lit in lits:
+                sh = refacts.info(lit).get("shape") or {}
+                anchors = sorted(set(looks(sh)))
+                ok = bool(sh) and not anchors
+                ctx.ob("R11-9", b.path, "the splice pattern %r is an unanchored search, like the gate" % lit[:40], ok,
+                       key="R11-9|%s|splice-anchored#%d" % (b.path, n), where=b.loc(bb), crate=crate.kind,
+                       detail=None if ok else "anchors %s: for `\"a$1b $(cmd) c\"` the pattern does not match, nothing is "
+                       "replaced and the rewrite loop never ends" % anchors)
             n += 1
     ctx.require(n >= 1, "R11-9", "R11-9|%s|anchor" % b.path, "no Regex::replace* splice found", b.path)
 
@@ -452,3 +479,241 @@ def bracket_rule(ctx, crate):
                  detail="an early `return` between the increment and the decrement leaves the field raised: each such "
                         "substitution leaks one level, and once the limit is reached every `$(...)` in this shell expands to "
                         "nothing (the command is not run, the surrounding text is lost)")
+
+
+SUBST_WORDS = {
+    "$(A)$(B)": {"A", "B"},
+    "x$(A)y$(B)z": {"A", "B"},
+    "$(A)-$(B)-$(C)": {"A", "B", "C"},
+    "$(A)": {"A"},
+    "pre$(A b)post": {"A b"},
+    "$(A $(B))": {"B", "A $(B)"},
+    "$(A $(B) c)$(D)": {"B", "D", "A $(B) c"},
+    "$(f (x))": {"f (x)"},
+    "$(A | f '(x)')": {"A | f '(x)'"},
+}
+
+
+def one_at_a_time_rule(ctx, crate):
+    from .. import refacts
+    from .c02 import dom_facts
+    b = crate.fn(SITES[0])
+    if b is None:
+        return
+    # the call that extracts the command: find_first_group(pattern, line) / Regex::captures
+    site = None
+    for bb, t, c in b.calls():
+        if last_seg(c) == "find_first_group":
+            site = bb
+    if not ctx.require(site is not None, "R11-13", "R11-13|%s|extractor" % b.path,
+                       "the call that extracts the command from the word was not found", b.path):
+        return
+    parg = b.call_args(site)[0]
+    alts = flow.const_alternatives(b, parg)
+    if not ctx.require(bool(alts), "R11-13", "R11-13|%s|pattern" % b.path,
+                       "the extracting pattern is not a literal or a choice between literals", b.path):
+        return
+    # which literal is used when: each definition of the pattern local with the regex tests that dominate it
+    choices = []          # (literal, [(guard literal, truth)])
+    r = mir.peel(strip_sites(parg))
+    if len(alts) == 1 or r[0] not in ("var", "tmp"):
+        choices = [(alts[0], [])]
+    else:
+        seen, todo = set(), [r[1]]
+        while todo:
+            l = todo.pop()
+            if l in seen:
+                continue
+            seen.add(l)
+            for bi, si in b.defs.get(l, []):
+                st = b.blocks[bi]["stmts"][si]
+                rv = st["rv"]
+                if rv.get("k") == "use":
+                    o = rv["op"].get("copy") or rv["op"].get("move")
+                    if o is not None and not o["p"]:
+                        todo.append(o["l"])
+                        continue
+                lit = mir.const_str(strip_sites(b.rvalue_expr(rv)))
+                guards = []
+                for a, v in dom_facts(b, bi):
+                    a2 = strip_sites(a)
+                    if a2[0] == "call" and last_seg(a2[1]) in ("re_contains", "is_match") and len(a2[2]) >= 2 and \
+                            isinstance(v, bool):
+                        g = mir.const_str(b.expand_vars(a2[2][1]))
+                        if g is not None:
+                            guards.append((g, v))
+                if lit is not None:
+                    choices.append((lit, guards))
+    if not ctx.require(bool(choices), "R11-13", "R11-13|%s|choices" % b.path, "cannot read how the pattern is chosen", b.path):
+        return
+    wrong = []
+    n = 0
+    try:
+        for w, allowed in sorted(SUBST_WORDS.items()):
+            used = None
+            for lit, guards in choices:
+                if all(refacts.matches(g, [w])[0] == v for g, v in guards):
+                    used = lit
+                    break
+            if used is None:
+                wrong.append("%s: no pattern selected" % w)
+                continue
+            got = refacts.captures1(used, [w])[0]
+            n += 1
+            if got not in allowed:
+                wrong.append("%s -> %r" % (w, got))
+    except Exception as e:      # fail closed
+        ctx.require(False, "R11-13", "R11-13|%s|engine" % b.path, "cannot evaluate the patterns: %s" % str(e)[:120], b.path)
+        return
+    ctx.ob("R11-13", b.path, "the extracted command is one complete substitution on %d representative words (%d pattern "
+                             "choice(s))" % (n, len(choices)), not wrong,
+           key="R11-13|%s|one-at-a-time" % b.path, where=b.loc(site), crate=crate.kind,
+           detail=None if not wrong else "; ".join(wrong[:4]) + ": the text between the first `$(` and the last `)` is run as "
+           "ONE command, `echo $(echo a)$(echo b)` prints `a)$(echo b`")
+
+
+def _writes_stderr(crate, path, depth=0):
+    f = crate.fn(path)
+    if f is None or depth > 2:
+        return False
+    for bb, t, c in f.calls():
+        if mir.short(c) in ("std::io::stderr", "std::io::_eprint") or last_seg(c) in ("eprint", "eprintln"):
+            return True
+        ci = f.callee_info(t)
+        if ci is not None and ci.get("local") and _writes_stderr(crate, ci["resolved"], depth + 1):
+            return True
+    return False
+
+
+def stderr_shown_rule(ctx, crate):
+    n = 0
+    for p in SITES:
+        b = crate.fn(p)
+        if b is None:
+            continue
+        k = 0
+        for bb, t, c in b.calls():
+            if not c.endswith("core::run_pipeline"):
+                continue
+            n += 1
+            res = strip_sites(b.call_expr(bb))
+            # uses of the result's stdout / stderr after the call
+            readers, showers = set(), set()
+            for b2, t2, c2 in b.calls():
+                if b2 == bb:
+                    continue
+                for a in b.call_args(b2):
+                    e = b.expand_vars(strip_sites(a))
+                    subs = list(mir.subexprs(e))
+                    if not any(x == res for x in subs) and flow.backward(
+                            b, a, lambda z: strip_sites(z) == res, through_containers=False) is None:
+                        continue
+                    names = {mir.field_name(x) for x in subs if x[0] == "field"}
+                    ci = b.callee_info(t2)
+                    local = ci["resolved"] if ci is not None and ci.get("local") else None
+                    if "stdout" in names:
+                        readers.add(b2)
+                    if ("stderr" in names and (mir.short(c2) in ("std::io::stderr",) or "write" in last_seg(c2) or
+                                               "Argument" in c2)) or (local is not None and _writes_stderr(crate, local)):
+                        showers.add(b2)
+            ok = bool(readers) and bool(showers) and all(flow.must_pass(b, bb, showers, {r}) for r in readers)
+            ctx.ob("R11-14", p, "the captured stderr of the command is passed on before its stdout is used", ok,
+                   key="R11-14|%s|stderr-shown#%d" % (p, k), where=b.loc(bb), crate=crate.kind,
+                   detail=None if ok else "`echo $(ls /nonexistent)` / `echo $(nosuchcmd)` print no diagnostic: both streams are "
+                   "captured and only stdout is looked at")
+            k += 1
+    ctx.floor("R11-14", crate, "capture sites", n, 3)
+
+
+def function_output_rule(ctx, crate):
+    b = crate.fn("core::try_run_func")
+    if not ctx.require(b is not None, "R11-15", "R11-15|anchor", "core::try_run_func not found"):
+        return
+    ctx.analysed(b)
+    bad, n = [], 0
+    acc = set()
+    for bb, t, c in b.calls():
+        ls = last_seg(c)
+        a = b.call_args(bb)
+        if ls in ("push_str", "push") and "String" in c and len(a) == 2:
+            v = b.expand_vars(strip_sites(a[1]))
+            from_field = [x for x in mir.subexprs(v) if x[0] == "field" and mir.field_name(x) in ("stdout", "stderr")]
+            root = mir.root_local_expr(b.expand_vars(strip_sites(a[0])))
+            if from_field:
+                n += 1
+                acc.add(root)
+                trims = [last_seg(x[1]) for x in mir.subexprs(v) if x[0] == "call" and last_seg(x[1]) in TRIMMERS | {"trim_end_matches"}]
+                if trims:
+                    bad.append((bb, "%s applied to %s" % ("/".join(sorted(set(trims))), mir.field_name(from_field[0]))))
+    # separators pushed into the same accumulators
+    for bb, t, c in b.calls():
+        ls = last_seg(c)
+        a = b.call_args(bb)
+        if ls in ("push_str", "push") and "String" in c and len(a) == 2:
+            root = mir.root_local_expr(b.expand_vars(strip_sites(a[0])))
+            if root in acc and (mir.const_char(a[1]) is not None or mir.const_str(b.expand_vars(strip_sites(a[1]))) is not None):
+                bad.append((bb, "constant %r inserted between the outputs" % (mir.const_char(a[1]) or mir.const_str(b.expand_vars(strip_sites(a[1]))))))
+    if not ctx.require(n >= 1, "R11-15", "R11-15|%s|assembly" % b.path, "no assembly of the body's output found", b.path):
+        return
+    ctx.ob("R11-15", b.path, "the results of the body are concatenated as written (%d field(s) appended)" % n, not bad,
+           key="R11-15|%s|output-exact" % b.path, where=b.loc((bad or [(0, "")])[0][0]), crate=crate.kind,
+           detail=None if not bad else "; ".join(x[1] for x in bad[:3]) + ": `\"$(f)\"` for a body `echo \"  a  \"; echo b` "
+           "gives `a b ` instead of the two lines")
+
+
+ASSIGN_RECOGNISERS = ["types::drain_env_tokens", "builtins::export::run", "tools::is_env"]
+
+
+def multiline_value_rule(ctx, crate):
+    from .. import refacts
+    n = 0
+    for p in ASSIGN_RECOGNISERS:
+        b = crate.fn(p)
+        if b is None:
+            continue
+        lits = set()
+        for bb, t, c in b.calls():
+            if c.endswith("Regex::new") or last_seg(c) in ("re_contains", "is_match", "find_first_group"):
+                for a in b.call_args(bb):
+                    v = mir.const_str(b.expand_vars(strip_sites(a)))
+                    if v is not None and "=" in v and ("^" in v):
+                        lits.add(v)
+        for lit in sorted(lits):
+            n += 1
+            try:
+                m = refacts.matches(lit, ["X=a\nb", "X=a", "X="])
+                g = refacts.captures1(lit.replace("(?s)", "(?s)") , ["X=a\nb"]) if "(" in lit.replace("(?s)", "") else [None]
+            except Exception as e:
+                ctx.require(False, "R11-16", "R11-16|%s|engine" % p, "cannot evaluate %r: %s" % (lit, str(e)[:100]), p)
+                continue
+            ok = m[0] and m[1] and m[2]
+            ctx.ob("R11-16", p, "assignment pattern %r accepts a value that spans lines" % lit, bool(ok),
+                   key="R11-16|%s|multiline-value|%s" % (p, lit.replace("(?s)", "")), crate=crate.kind,
+                   detail=None if ok else "`.` does not match a newline: `FILES=$(ls -1 dir)` with several entries is not "
+                   "recognised as an assignment (it is run as a command / export prints its usage)")
+    ctx.floor("R11-16", crate, "assignment patterns", n, 3 if crate.kind == "bin" else 2)
+
+
+IN_PROCESS = {"core::run_pipeline": ("try_run_func",), "core::run_single_program": ("try_run_builtin",)}
+
+
+def isolation_rule(ctx, crate):
+    from .c02 import dom_facts
+    n = 0
+    for p, names in sorted(IN_PROCESS.items()):
+        b = crate.fn(p)
+        if not ctx.require(b is not None, "R11-17", "R11-17|anchor|%s" % p, "%s not found" % p):
+            continue
+        for bb, t, c in b.calls():
+            if last_seg(c) not in names:
+                continue
+            n += 1
+            facts = dom_facts(b, bb)
+            # a dominating test that says: not capturing
+            ok = any(v is False and ("capture" in render(strip_sites(a))) and strip_sites(a)[0] in ("var", "param", "field")
+                     for a, v in facts)
+            ctx.ob("R11-17", p, "%s (runs in the shell process) is reached only when not capturing" % last_seg(c), ok,
+                   key="R11-17|%s|in-process|%s" % (p, last_seg(c)), where=b.loc(bb), crate=crate.kind,
+                   detail=None if ok else "the command of `$(...)` / backquotes runs inside the shell: its cd / export / alias / "
+                   "assignments persist and `exit` terminates the shell")
+    ctx.floor("R11-17", crate, "in-process execution sites", n, 2)
